@@ -115,6 +115,9 @@ func runC14(c *Ctx) error {
 	}
 
 	// 2. ValidNamesSplit
+	var prevOut, prevCopy []string
+	var prevIn string
+	var splitViolations []interface{}
 	for i := 0; i < 400*scale; i++ {
 		var s string
 		sep := byte(',')
@@ -140,6 +143,18 @@ func runC14(c *Ctx) error {
 			out = valid.ValidNamesSplit(s)
 		} else {
 			out = valid.ValidNamesSplit(s, sep)
+		}
+		// the pieces handed out by the PREVIOUS call must still read the same after this call
+		for j := range prevOut {
+			if j < len(prevCopy) && prevOut[j] != prevCopy[j] && len(splitViolations) < 10 {
+				splitViolations = append(splitViolations, map[string]interface{}{"kind": "pieces-changed-after-a-later-split",
+					"earlier_input": prevIn, "piece": j, "was": prevCopy[j], "now": prevOut[j], "later_input": s})
+			}
+		}
+		prevOut, prevIn = out, s
+		prevCopy = make([]string, len(out))
+		for j := range out {
+			prevCopy[j] = string([]byte(out[j]))
 		}
 		cell := fmt.Sprintf("split:%s:q%d:sep%d:n%d", cls, min(strings.Count(s, "'"), 3), min(strings.Count(s, string([]byte{sep})), 3), min(len(out), 4))
 		w.Add("CSplit "+gal.Str(s)+" "+gal.N(uint64(sep))+" "+gal.StrList(out), map[string]interface{}{"fn": "ValidNamesSplit", "in": s, "sep": int(sep), "out": out}, cell)
@@ -268,6 +283,9 @@ func runC14(c *Ctx) error {
 			"id": "C14-bar-in-value", "reproduces": !(k == "in" && v == "(a|b)" && m == ""),
 			"input": `ParseValidNameKV(GenValidKV("in","a|b"))`, "observed": []string{k, v, m},
 		}}
+	}
+	if len(splitViolations) > 0 {
+		w.Extra["violations"] = splitViolations
 	}
 	return w.Flush()
 }
